@@ -1,0 +1,162 @@
+//go:build verif
+
+// Package verifhook provides named instrumentation points for the external
+// verification harness (build tag "verif").
+//
+// A site can be armed in three ways:
+//   - crash: the process exits with status 137 at the n-th hit of the site
+//     (environment VERIF_CRASH=site:n, or ArmCrash);
+//   - gate: callers block at the site until it is released (Hold/Release);
+//   - yield: Yield sites call runtime.Gosched or sleep briefly, driven by a seeded
+//     generator (environment VERIF_YIELD=seed, or SetYield).
+package verifhook
+
+import (
+	"os"
+	"runtime"
+	"strconv"
+	"strings"
+	"sync"
+	"sync/atomic"
+	"time"
+)
+
+var (
+	mu        sync.Mutex
+	hits      = map[string]int{}
+	crashSite string
+	crashHit  int
+	gates     = map[string]chan struct{}{}
+	waiting   = map[string]int{}
+	onHit     func(site string, n int)
+
+	yieldOn   atomic.Bool
+	yieldSeed atomic.Uint64
+)
+
+func init() {
+	if v := os.Getenv("VERIF_CRASH"); v != "" {
+		i := strings.LastIndex(v, ":")
+		if i > 0 {
+			n, _ := strconv.Atoi(v[i+1:])
+			crashSite, crashHit = v[:i], n
+		}
+	}
+	if v := os.Getenv("VERIF_YIELD"); v != "" {
+		s, _ := strconv.ParseUint(v, 10, 64)
+		SetYield(s)
+	}
+}
+
+// ArmCrash makes the process exit(137) at the n-th hit (1-based) of site.
+func ArmCrash(site string, n int) {
+	mu.Lock()
+	crashSite, crashHit = site, n
+	hits[site] = 0
+	mu.Unlock()
+}
+
+// OnHit installs a callback invoked (outside the package lock) at every Point.
+func OnHit(f func(site string, n int)) {
+	mu.Lock()
+	onHit = f
+	mu.Unlock()
+}
+
+// Hold makes callers of Point(site) block until Release(site).
+func Hold(site string) {
+	mu.Lock()
+	if _, ok := gates[site]; !ok {
+		gates[site] = make(chan struct{})
+	}
+	mu.Unlock()
+}
+
+// Release lets blocked and future callers of Point(site) through.
+func Release(site string) {
+	mu.Lock()
+	if ch, ok := gates[site]; ok {
+		close(ch)
+		delete(gates, site)
+	}
+	mu.Unlock()
+}
+
+// Waiting reports how many goroutines are currently blocked at site.
+func Waiting(site string) int {
+	mu.Lock()
+	defer mu.Unlock()
+	return waiting[site]
+}
+
+// Hits reports how often site was reached.
+func Hits(site string) int {
+	mu.Lock()
+	defer mu.Unlock()
+	return hits[site]
+}
+
+// Reset clears counters, gates (releasing waiters) and the crash arm.
+func Reset() {
+	mu.Lock()
+	for s, ch := range gates {
+		close(ch)
+		delete(gates, s)
+	}
+	hits = map[string]int{}
+	crashSite, crashHit = "", 0
+	onHit = nil
+	mu.Unlock()
+}
+
+// Point marks a place where the harness may stop the process or hold the caller.
+func Point(site string) {
+	mu.Lock()
+	hits[site]++
+	n := hits[site]
+	crash := crashSite == site && crashHit == n
+	ch := gates[site]
+	cb := onHit
+	if ch != nil {
+		waiting[site]++
+	}
+	mu.Unlock()
+	if crash {
+		os.Exit(137)
+	}
+	if cb != nil {
+		cb(site, n)
+	}
+	if ch != nil {
+		<-ch
+		mu.Lock()
+		waiting[site]--
+		mu.Unlock()
+	}
+	Yield(site)
+}
+
+// SetYield switches schedule perturbation on with the given seed (0 = off).
+func SetYield(seed uint64) {
+	yieldSeed.Store(seed | 1)
+	yieldOn.Store(seed != 0)
+}
+
+// Yield marks a place where the harness may perturb the goroutine schedule.
+func Yield(site string) {
+	if !yieldOn.Load() {
+		return
+	}
+	// xorshift on a shared word; races on it only add to the perturbation
+	x := yieldSeed.Load()
+	x ^= x << 13
+	x ^= x >> 7
+	x ^= x << 17
+	yieldSeed.Store(x)
+	switch x % 8 {
+	case 0, 1, 2:
+		runtime.Gosched()
+	case 3:
+		time.Sleep(time.Duration(x%200) * time.Microsecond)
+	}
+}
